@@ -24,14 +24,15 @@ class C18(core.Check):
     technique = ("Lean 4 theorems over an executable model of Responder (start/build/write/reset/service) and the serviceReqs/serviceReps hand-over on one "
                  "connection; differential run of the compiled model against the real hio Server driven through a scripted servant/socket; "
                  "independent oracle = stdlib http.client parsing the raw bytes the server queued")
-    level_text = ("Proved for every request list and every app behaviour (unbounded, structural induction): clamp (bytes after the head never exceed a declared "
-                  "Content-Length, and equal the first Content-Length bytes of the app output when it produces at least that many), close_iff_not_persisted "
-                  "(closed <-> some request is not persistent; app calls = requests up to and including the first non-persistent one), one_response_parses_back / "
-                  "responses_parse_back_partial (a response-framing parser defined in Lean recovers exactly status, header list and body of every response in order, "
-                  "for well-formed app output, whenever each response that is followed by another is length- or chunk-delimited), self_delimiting_partial "
-                  "(every response is delimited except HTTP/1.0 keep-alive without Content-Length = F29, proved to fail: f29_not_delimited). "
+    level_text = ("Proved for every request list and every app behaviour (unbounded, structural induction; the stateful Responder run is first shown equal to a closed form, "
+                  "respond_eq): clamp (with a declared Content-Length L the bytes after the head are exactly the first L bytes the app produced — never more), "
+                  "close_iff_not_persisted + answers_until_first_close (closed <-> some request is not persistent; the app is called once per request up to and including "
+                  "the first non-persistent one), one_response_parses_back and responses_parse_back_partial (a response-framing parser defined in Lean — head lines, "
+                  "Content-Length or chunked body — recovers, in request order and with nothing left over, exactly status line, header list and body of every response "
+                  "of well-formed app output, under the guard that each response is delimited), self_delimiting_partial (every response is delimited unless the request "
+                  "is HTTP/1.0 and the app declares no Content-Length = F29, proved to fail: f29_not_delimited, recorded as C18-K1). "
                   "The model is tied to serving.py by a seeded differential run (raw bytes, closed flag, app call count) under random fragmentation of the request "
-                  "stream, service-cycle gaps and send quotas.")
+                  "stream, service-cycle gaps and send quotas; default Server header and version string are re-extracted from the code on every run.")
     level_note = ("Trusted: Lean kernel + propext/Classical.choice/Quot.sound; the hand-written model's faithfulness is carried by the sampled correspondence; "
                   "request parsing/fragmentation independence is C13's; app behaviours outside the quantifier (app raises, app sets its own Transfer-Encoding/Content-Length "
                   "through the header list, output shorter than its declared length, 1xx/204/304, HEAD) are not generated.")
@@ -71,6 +72,17 @@ class C18(core.Check):
             ([(1, 1, None), (0, 0, 100), (0, 0, None)], [E, E, E], ([81, 113, 134, 152, 176], 1), None),
             ([(0, 3, None), (1, 0, None)], [B, (b"200 OK", [], 6, [b"ab", b"", b"cdef", b"gh"], None)], ([], 1), 3),
         ]
+
+    def exhaustive(self, tier):
+        if tier != "thorough":
+            return [], None
+        A = (b"200 OK", [(b"X-A", b"1")], None, [b"ab", b"", b"cd"], None)
+        B = (b"200 OK", [], 4, [b"ab", b"cd"], None)
+        C = (b"404 Not Found", [], 3, [b"abcdef"], b"zz")
+        reqs = [(v, c, None) for v in (0, 1) for c in (0, 1, 2, 3)]
+        cs = [([r], [a], ([], 1), None) for r in reqs for a in (A, B, C)]
+        cs += [([r1, r2], [a1, a2], ([], 1), None) for r1 in reqs for r2 in reqs for a1 in (A, B, C) for a2 in (A, B, C)]
+        return cs, "all connections of 1 and 2 requests over {HTTP/1.0,1.1} x {no Connection, keep-alive, close, Keep-Alive} x app {no length, exact length, clamped length}"
 
     def _app(self, rng):
         status = rng.choice(STATUSES)
